@@ -2,7 +2,7 @@
 # every check must at least load its harness module when it is the entry point (catches import cycles between harness modules)
 cd /verif; rc=0
 for p in $(python3 -c "import json; print(' '.join(c['property_id'] for c in json.load(open('MANIFEST.json'))['checks']))"); do
-  out=$(./check $p --only __no_such_obligation__ 2>&1 | tail -1)
+  out=$(VERIF_EVIDENCE_DIR=$(mktemp -d /tmp/verif_smoke.XXXX) ./check $p --only __no_such_obligation__ 2>&1 | tail -1)
   case "$out" in "$p tier="*) ;; *) echo "IMPORT PROBLEM $p: $out"; rc=1;; esac
 done
-exit $rc
+rm -rf /tmp/verif_smoke.*; exit $rc
